@@ -4,6 +4,26 @@ from .values import *
 from .gostate import *
 from . import speclang
 
+def select_patterns(body, kq):
+    """explicit E-matching triggers: every array read whose index mentions the bound variable (z3's own inference
+    rejects triggers containing `+` and falls back to MBQI, which does not terminate on these goals)"""
+    out, seen = [], set()
+    def has(t):
+        if t.get_id() == kq.get_id(): return True
+        return any(has(c) for c in t.children())
+    def go(t):
+        if t.get_id() in seen: return
+        seen.add(t.get_id())
+        if z3.is_quantifier(t): return
+        if z3.is_select(t) and has(t.arg(1)) and not has(t.arg(0)):
+            out.append(t)
+            return
+        for c in t.children(): go(c)
+    go(body)
+    uniq = {}
+    for t in out: uniq[t.get_id()] = t
+    return list(uniq.values())[:4]
+
 class SpecEnv:
     """Name resolution for one contract evaluation: explicit bindings first, then the state's locals."""
     def __init__(self, st, binds=None, old=None, results=None, exec_=None):
@@ -113,6 +133,8 @@ class SpecMixin:
             return z3.Select(x.arr, x.off + i)
         if isinstance(x, SliceV):
             terms = [z3.Select(a, x.off + i) for a in x.arrs]
+            if x.etid is None:
+                return terms[0]
             return self.lay.unflatten(iter(terms), x.etid)
         if isinstance(x, ArrayV):
             return self.lay.unflatten(iter([z3.Select(a, i) for a in x.arrs]), x.etid)
@@ -186,13 +208,37 @@ class SpecMixin:
                 lo, hi = self.sev(env, args[1]), self.sev(env, args[2])
                 body = self.sev(env2, args[3])
                 rng = z3.And(lo <= kq, kq < hi)
-                return z3.ForAll([kq], z3.Implies(rng, body)) if name == 'forall' else z3.Exists([kq], z3.And(rng, body))
+                if name == 'forall':
+                    pats = select_patterns(body, kq)
+                    return z3.ForAll([kq], z3.Implies(rng, body), patterns=pats) if pats else z3.ForAll([kq], z3.Implies(rng, body))
+                return z3.Exists([kq], z3.And(rng, body))
             body = self.sev(env2, args[1])
             return z3.ForAll([kq], body) if name == 'forall' else z3.Exists([kq], body)
+        if name == 'all':      # all(binders..., P): binder = id (Int) | seqv(id) (ByteSeq) | boolv(id)
+            vs, binds = [], dict(env.binds)
+            for b in args[:-1]:
+                if b[0] == 'id':
+                    q = fresh('q!' + b[1]); binds[b[1]] = q
+                elif b[0] == 'call' and b[1] == ('id', 'bytesv'):
+                    nm = b[2][0][1]
+                    qa, qo, qn = fresh('q!%s.arr' % nm, ArrII), fresh('q!%s.off' % nm), fresh('q!%s.len' % nm)
+                    binds[nm] = SliceV([qa], qo, qn, qn, None, z3.BoolVal(False))
+                    vs += [qa, qo]
+                    q = qn
+                elif b[0] == 'call' and b[1] == ('id', 'seqv'):
+                    self.use_seq = True
+                    q = fresh('q!' + b[2][0][1], ByteSeq); binds[b[2][0][1]] = SeqV(q)
+                else:
+                    raise Unsupported('binder %r' % (b,))
+                vs.append(q)
+            env2 = SpecEnv(env.st, binds, env.old, env.results)
+            return z3.ForAll(vs, self.sev(env2, args[-1]))
         if name == 'seq':
             self.use_seq = True
             x = self.sev(env, args[0])
             if isinstance(x, (StrV, SliceV)):
+                for f in sl_facts(x.arr, x.off, x.off + x.len):
+                    env.st.pc.append(f)
                 return SeqV(sl(x.arr, x.off, x.off + x.len))
             if isinstance(x, SeqV): return x
             raise Unsupported('seq of %r' % (x,))
@@ -235,6 +281,12 @@ class SpecMixin:
         if name == 'samearr':
             x, y = self.sev(env, args[0]), self.sev(env, args[1])
             return z3.And([a == b for a, b in zip(x.arrs, y.arrs)] + [x.off == y.off]) if isinstance(x, SliceV) else z3.And(x.arr == y.arr, x.off == y.off)
+        if name == 'suffixof':   # suffixof(p, q): p is q[k:] for k = len(q)-len(p)
+            x, y = self.sev(env, args[0]), self.sev(env, args[1])
+            return z3.And(x.arr == y.arr, x.off >= y.off, x.off + x.len == y.off + y.len)
+        if name == 'prefixof':
+            x, y = self.sev(env, args[0]), self.sev(env, args[1])
+            return z3.And(x.arr == y.arr, x.off == y.off, x.len <= y.len)
         if name == 'str':      # identity term of a string (for equalities on opaque strings)
             x = self.sev(env, args[0])
             return self.mapkey(env.st, x)
